@@ -50,6 +50,19 @@ def strategy(tier):
                     if a["name"] == X.deriv_name(s["name"]):
                         a["comps"] = list(s["comps"])
             comps = names
+        # a component may read another component's state derivative (Icap = Cm*dV_dt): the derivative
+        # is then a missing variable of one side and an exported quantity of the other
+        if draw(st.integers(0, 2)) == 0:
+            s = draw(st.sampled_from(model["states"]))
+            others = [b for b in model["states"] if b["comps"] != s["comps"]]
+            if others:
+                b = draw(st.sampled_from(others))
+                nm = "cap_" + s["name"]
+                if nm not in X.model_names(model):
+                    model["assigns"].append({"name": nm, "expr": ["bin", "*", ["num", "2.5"], ["var", X.deriv_name(s["name"])]], "comps": list(b["comps"])})
+                    for a in model["assigns"]:
+                        if a["name"] == X.deriv_name(b["name"]):
+                            a["expr"] = ["bin", "+", a["expr"], ["var", nm]]
         need = [X.deriv_name(s["name"]) for s in model["states"]]
         pts = G.draw_points(draw, model, 2, need)
         return {"model": model, "points": pts, "split": draw(st.sampled_from(comps)), "backend": draw(st.sampled_from(["numpy", "numpy", "numpy", "jax"])), "dt": 0.01, "c_probe": draw(st.integers(0, 7)) == 0}
